@@ -107,6 +107,10 @@ PY_FAMILIES = [
     ('py:{{*n}', lambda n: '{{' * n + '}'),
     ('py:{:a*n}', lambda n: '{:' + 'a' * n + '}'),
     ('py:{0*n', lambda n: '{' + '0' * n),
+    # many DIFFERENT arguments (the bookkeeping per argument must not grow with the number of arguments seen so far)
+    ('py:distinct-names', lambda n: ''.join('{n%06d}' % i for i in range(n // 9 + 1))),
+    ('py:distinct-indices', lambda n: ''.join('{%d}' % i for i in range(n // 6 + 1))),
+    ('py:distinct-names-typed', lambda n: ''.join('x{n%06d:d}' % i for i in range(n // 12 + 1))),
 ]
 
 PERL_FAMILIES = [
@@ -115,6 +119,9 @@ PERL_FAMILIES = [
     ('perl:{+a*n', lambda n: '{' + 'a' * n),
     ('perl:{a}*n', lambda n: '{a}' * n),
     ('perl:a*n+{', lambda n: 'a' * n + '{'),
+    ('perl:distinct-names', lambda n: ''.join('{n%06d}' % i for i in range(n // 9 + 1))),
+    ('perl:x+distinct-names', lambda n: ''.join('x{n%06d}' % i for i in range(n // 10 + 1))),
+    ('perl:two-names-alternating', lambda n: '{a}{b}' * (n // 6 + 1)),
 ]
 
 
